@@ -91,3 +91,90 @@ def discharge(ob, timeout_ms=10000, use_cvc5=True):
             return r
     return {"name": ob.name, "status": "discharged", "backend": "+".join(sorted(backends)) or "simplify",
             "seconds": total, "model": None}
+
+
+# ---------------------------------------------------------------------------- bounded-quantifier expansion
+# In bounded (concrete-structured) mode every index range is a literal range; expanding such quantifiers makes the
+# formulas quantifier-free, so z3 returns models (replayable counterexamples) instead of `unknown`.
+
+def _lit(t):
+    s = z3.simplify(t)
+    return s.as_long() if z3.is_int_value(s) else None
+
+
+def _bounds_of(ante, consts):
+    lo, hi = {}, {}
+    conj = split_conj(ante) if z3.is_and(ante) else [ante]
+    ids = {c.get_id(): i for i, c in enumerate(consts)}
+    for a in conj:
+        if not z3.is_app(a) or a.num_args() != 2:
+            continue
+        k = a.decl().kind()
+        x, y = a.arg(0), a.arg(1)
+        xi, yi = ids.get(x.get_id()), ids.get(y.get_id())
+        if k == z3.Z3_OP_LE:      # x <= y
+            if yi is not None and _lit(x) is not None:
+                lo[yi] = max(lo.get(yi, -10 ** 9), _lit(x))
+            if xi is not None and _lit(y) is not None:
+                hi[xi] = min(hi.get(xi, 10 ** 9), _lit(y) + 1)
+        elif k == z3.Z3_OP_GE:    # x >= y
+            if xi is not None and _lit(y) is not None:
+                lo[xi] = max(lo.get(xi, -10 ** 9), _lit(y))
+            if yi is not None and _lit(x) is not None:
+                hi[yi] = min(hi.get(yi, 10 ** 9), _lit(x) + 1)
+        elif k == z3.Z3_OP_LT:    # x < y
+            if xi is not None and _lit(y) is not None:
+                hi[xi] = min(hi.get(xi, 10 ** 9), _lit(y))
+            if yi is not None and _lit(x) is not None:
+                lo[yi] = max(lo.get(yi, -10 ** 9), _lit(x) + 1)
+        elif k == z3.Z3_OP_GT:    # x > y
+            if xi is not None and _lit(y) is not None:
+                lo[xi] = max(lo.get(xi, -10 ** 9), _lit(y) + 1)
+            if yi is not None and _lit(x) is not None:
+                hi[yi] = min(hi.get(yi, 10 ** 9), _lit(x))
+    return lo, hi
+
+
+_EXP_N = [0]
+
+
+def expand_quantifiers(t, limit=4000):
+    """expand ForAll/Exists whose bound variables all range over literal integer intervals"""
+    import itertools
+    if not z3.is_expr(t):
+        return t
+    if z3.is_quantifier(t) and not t.is_lambda():
+        n = t.num_vars()
+        if all(t.var_sort(i) == z3.IntSort() for i in range(n)):
+            _EXP_N[0] += 1
+            consts = [z3.Int(f"_xq{_EXP_N[0]}_{i}") for i in range(n)]
+            body = z3.substitute_vars(t.body(), *reversed(consts))
+            if t.is_forall() and z3.is_implies(body):
+                ante, cons = body.arg(0), body.arg(1)
+            elif t.is_exists() and z3.is_and(body):
+                ante, cons = body, body
+            else:
+                ante, cons = None, body
+            if ante is not None:
+                lo, hi = _bounds_of(ante, consts)
+                if all(i in lo and i in hi for i in range(n)):
+                    ranges = [range(lo[i], hi[i]) for i in range(n)]
+                    size = 1
+                    for r in ranges:
+                        size *= max(len(r), 0)
+                    if size <= limit:
+                        insts = []
+                        for vals in itertools.product(*ranges):
+                            sub = [(c, z3.IntVal(v)) for c, v in zip(consts, vals)]
+                            insts.append(expand_quantifiers(z3.simplify(z3.substitute(body, *sub)), limit))
+                        if t.is_forall():
+                            return z3.And(*insts) if insts else z3.BoolVal(True)
+                        return z3.Or(*insts) if insts else z3.BoolVal(False)
+        return t
+    if z3.is_app(t) and t.num_args() > 0 and t.sort() == z3.BoolSort():
+        k = t.decl().kind()
+        if k in (z3.Z3_OP_AND, z3.Z3_OP_OR, z3.Z3_OP_NOT, z3.Z3_OP_IMPLIES, z3.Z3_OP_ITE, z3.Z3_OP_EQ, z3.Z3_OP_IFF):
+            args = [expand_quantifiers(a, limit) if a.sort() == z3.BoolSort() else a for a in t.children()]
+            if any(x is not y for x, y in zip(args, t.children())):
+                return t.decl()(*args)
+    return t
